@@ -7,7 +7,7 @@
          application having answered <calls> Value() calls before; inputs as in C12 (start r | prop .. | pv .. |
          pc .. | to k h r), words separated by '_' or ' '.
          Reply: one line per state machine call "<label> => <effects>", then
-                "= <height> <started 0/1> <calls> <n effects> <resume height if crashed at k> <good_run 0/1/-> <life_disc 0/1>", then "end".
+                "= <height> <started 0/1> <calls> <n effects> <resume height if crashed at k> <good_run 0/1/-> <life_disc 0/1/-> <live_good of a restarted life 0/1/->", then "end".
          k >= 0: the process is killed after its first k effects; the log directory becomes crash_at k.
          k = -1: clean run to the end of the inputs, directory unchanged (what-if run).
      verdict <h0>         -> "<no_conflict> <resume> <flush+logged>" on (effects before the last crash, last life)
@@ -179,8 +179,11 @@ let () =
            the calling discipline *)
         let plain = if k < 0 && dur_before = [] && int_of_string calls = 0 then b01 (good_run e (ni h) ins) else "-" in
         let disc = if k < 0 then b01 (life_disc e (ni h) dur_before (ni calls) ins) else "-" in
+        (* the live phase of a later life is plain: hypothesis of the step of Worlds *)
+        let lg = if k < 0 && not (dur_before = [] && int_of_string calls = 0)
+                 then b01 (live_good e (fst (recover e (ni h) dur_before (ni calls))) ins) else "-" in
         print_endline ("= " ^ sn d.d_sm.s_h ^ " " ^ b01 d.d_sm.s_started ^ " " ^ sn d.d_calls ^ " " ^
-                       string_of_int (List.length effs) ^ " " ^ resume ^ " " ^ plain ^ " " ^ disc);
+                       string_of_int (List.length effs) ^ " " ^ resume ^ " " ^ plain ^ " " ^ disc ^ " " ^ lg);
         print_endline "end"; flush stdout
     | ["verdict"; h0] ->
         print_endline (show_verdict (verdict (ni h0) !pre_ref !post_ref)); flush stdout
